@@ -133,6 +133,29 @@ CHECKS['C20'] = dict(
          '(tuples outside the domain must raise). Generated: K_n for n=-6..6 and x in (0.05,20) plain and inside composite expressions, 30 re-exported special functions inside their domains.',
     note='Table parts are exhaustive (EXHAUSTIVE in the module); the special-function part samples.')
 
+CHECKS['C07'] = dict(
+    technique='property-based testing (Hypothesis): closed-form GLS estimator as reference model in value, fluctuations (RefObs.combine) and covariance gradients; metamorphic permutation of points and keys',
+    level='exploration', design='DESIGN.md 4/C07',
+    text='Linear-basis models with 1-4 parameters, 1-2 abscissa dimensions, 1-3 data sets sharing parameters (list and dictionary call forms, independent insertion orders), data on related '
+         'layouts with cross- and autocorrelation, priors as list / dict / Obs / string, correlated fits with estimated or supplied inverse Cholesky factor, LM / migrad / Nelder-Mead / Powell, '
+         'autograd and num_grad, Corr.fit ranges: parameters equal (A^T W A + P)^-1 (A^T W y + P pi) in value, every fluctuation and gradient; chi-square, dof, p-value, Hotelling t2 and '
+         'chi2/chi2_exp recomputed from their definitions; permutation invariance.',
+    note='Value tolerance is the stopping accuracy of each minimiser in units of sigma_p; fluctuations 1e-9. F-C07-1 is a recorded finding.')
+CHECKS['C08'] = dict(
+    technique='property-based testing (Hypothesis): stationarity and implicit-function sensitivities from an independent second-order jet implementation (vlib/fit08.py); metamorphic finite-difference re-fits',
+    level='exploration', design='DESIGN.md 4/C08',
+    text='Ten smooth non-linear model families (1-4 parameters, 2-d x, combined dictionary fit) on independent / shared ensembles, correlated and uncorrelated chi-square, priors, '
+         'x as numbers or observables, autograd and num_grad: Newton step of the documented chi-square vanishes at the returned values, every fluctuation equals sum_j S_kj delta(datum j) with '
+         'S = -H^-1 d(grad chi2)/d(data), shifting one datum and re-fitting moves the parameters by S (Richardson-combined quotient), TLS with negligible x errors equals LS, fit_lin dispatch.',
+    note='H and mixed derivatives are computed by hand-written product/chain-rule jets, independent of autograd and numdifftools.')
+CHECKS['C14'] = dict(
+    technique='property-based testing (Hypothesis): differential test Corr level vs Obs/CObs level per timeslice, independently written index maps, deep fingerprints for non-mutation with repeated invocation',
+    level='exploration', design='DESIGN.md 4/C14',
+    text='Correlators T=2..16, N=1..3, arbitrary None sets, real and complex content; every operator and elementary function with Corr / Obs / CObs / int / float / complex partners in both orders '
+         '(NaN timeslices produced on purpose); roll, reverse, thin, symmetric, anti_symmetric, T_symmetry, item, projected, trace, matrix_symmetric, Hankel, __repr__: same T and N, entries equal the '
+         'Obs-level operation, None exactly where an operand is None or the value is NaN; every call is made twice with the same objects and operands / arguments must be unchanged.',
+    note='F-C14-6 and F-C14-8b (explicitly unsupported exponent types) are recorded findings.')
+
 PENDING_REASON = 'check under construction in this build phase; not claimed until its quick tier is silent on the unchanged tree'
 
 
